@@ -3003,6 +3003,16 @@ coap_handle_request_put_block(coap_context_t *context,
   saved_num = block.num;
   saved_offset = offset;
 
+  if (!block.bert && block.szx > lg_srcv->szx) {
+    /*
+     * The block size was forced down for this body, so what has been
+     * received is tracked in units of the smaller size.
+     */
+    block.num <<= block.szx - lg_srcv->szx;
+    block.szx = lg_srcv->szx;
+    chunk = (size_t)1 << (block.szx + 4);
+  }
+
   while (offset < saved_offset + length) {
     if (!check_if_received_block(&lg_srcv->rec_blocks, block.num)) {
       /* Update list of blocks received */
